@@ -17,7 +17,12 @@ PROPS_MODULE = "NumbersModel.Props.C01"
 THEOREMS = [f"NumbersModel.Props.C01.{t}" for t in (
     "d128_roundtrip", "d128_pack_total", "d128_pack_injective", "cell_roundtrip", "number_cell_roundtrip",
     "row_offsets_fit_int16", "row_roundtrip", "tiles_cover", "tiles_bounded", "tiles_count",
-    "table_roundtrip", "table_saved_shape", "seconds_payload_roundtrip_partial")]
+    "table_roundtrip", "table_saved_shape", "seconds_payload_roundtrip_partial")] + [
+    # the decimal128 clause over _unpack_decimal128 as py2lean regenerates its integer part from cell.py on every run
+    "NumbersModel.Props.C01.Src.src_d128_roundtrip", "NumbersModel.Props.C01.Src.src_d128_roundtrip_both",
+    "NumbersModel.Props.C01.Src.src_d128_pack_total", "NumbersModel.Props.C01.Src.src_d128_unpack_errors",
+    "NumbersModel.Translated.unpack_decimal128_eq_model", "NumbersModel.Translated.pack_decimal128_eq_model"]
+TRANSLATED_GROUPS = ("Dec128",)
 PARTIAL = {
     "NumbersModel.Props.C01.seconds_payload_roundtrip_partial":
         "date / duration / bool payloads are 8 opaque bytes in the model: the theorem only states that the bytes written "
@@ -55,7 +60,13 @@ MANIFEST = {
             "by differential correspondence: the TST objects read back from files written by Document.save are compared field by "
             "field and byte by byte with saveTable's output, the grids Document(path) reads with loadTable on those objects. The "
             "path Table.write -> ... -> Cell.value (value <-> payload through decimal / struct / datetime, grid growth) is "
-            "exercised by an exact-equality oracle on generated documents, which is exploration, not proof.",
+            "exercised by an exact-equality oracle on generated documents, which is exploration, not proof. The integer part of "
+            "_unpack_decimal128 (byte reads, & << >> |, the 14-byte loop, the sign test - everything before the final "
+            "float(...)) and _pack_decimal128 from the decimal triple on (bytearray item updates, the while loop over the "
+            "mantissa) are additionally TRANSLATED from cell.py on every run (harness/py2lean.py -> Gen/TrDec128.lean), proved "
+            "equal to Decimal128.unpack for every buffer resp. Decimal128.pack for every triple (Lemmas/TrDec128.lean), the "
+            "round-trip clause is restated over them (Props.C01.Src.src_d128_roundtrip_both) and the translated definitions are "
+            "run against the real functions (trdriver).",
     "note": "assumed (exercised, not proved): float(repr-decimal) is the correctly rounded inverse of str(float) for <= 15 (in fact "
             "<= 17) significant digits; decimal.Context(prec=34).create_decimal(str(x)) is exact for such x; struct '<d' is "
             "bijective; timedelta(seconds=float) / total_seconds() invert each other at microsecond resolution within +-100 years "
@@ -69,7 +80,7 @@ MANIFEST = {
             "theorem's hypotheses. Not modelled: _validate_cell_coords growth / Cell._from_value dispatch (C03 grid model and the "
             "end-to-end oracle).",
     "technique": "Lean 4 proof (bit-level arithmetic, list induction, state invariant of the string list, refinement of the "
-                 "dict-based row map) + differential correspondence on real saved objects + end-to-end oracle",
+                 "dict-based row map; the decimal128 reader proved equal to its translation from the Python source) + differential correspondence on real saved objects + end-to-end oracle",
 }
 ASSUMPTIONS = [
     "float(str) / repr(float) are correctly rounded inverses on <=15-significant-digit decimals (CPython)",
@@ -97,9 +108,11 @@ def limited_violations(ctx: Ctx, per_sig: int = 3):
     return seen, orig
 
 
-def correspond_map(ctx: Ctx, name: str, requests, impl_out, fmap, exhaustive=False):
+def correspond_map(ctx: Ctx, name: str, requests, impl_out, fmap, exhaustive=False, tr_fmap=None):
     """like ctx.correspond, but the model's reply is passed through `fmap` (an explicitly assumed third-party
-    step, e.g. decimal triple -> float) before it is compared with the implementation's output."""
+    step, e.g. decimal triple -> float) before it is compared with the implementation's output.
+    tr_fmap: the same requests are also run through the definitions py2lean translated from the source (trdriver) and
+    their reply is passed through `tr_fmap`."""
     sub = ctx.subspaces.setdefault(name, {"cases": 0, "exhaustive": exhaustive, "disagreements": 0})
     sub["cases"] += len(requests)
     ctx.evaluations += len(requests)
@@ -117,6 +130,16 @@ def correspond_map(ctx: Ctx, name: str, requests, impl_out, fmap, exhaustive=Fal
             sub["disagreements"] += 1
             if len(ctx.disagreements) < 50:
                 ctx.disagreements.append({"subspace": name, "request": r, "impl": a, "model": b, "model_mapped": b2})
+    if tr_fmap is not None and ctx.translated_available:
+        tr_out = common.run_model(requests, driver=common.TRDRIVER)
+        sub["translated_source_cases"] = sub.get("translated_source_cases", 0) + len(requests)
+        for r, a, b in zip(requests, impl_out, tr_out):
+            b2 = tr_fmap(b)
+            if a != b2:
+                sub["disagreements"] += 1
+                if len(ctx.disagreements) < 50:
+                    ctx.disagreements.append({"subspace": name + " [definitions translated from the source]", "request": r,
+                                              "impl": a, "model": b, "model_mapped": b2})
 
 
 def dec_triple(v):
@@ -133,6 +156,20 @@ def dec_to_float_repr(reply: str) -> str:
     m = -int(c) if s == "1" else int(c)
     try:
         return "ok " + repr(float(f"{m}E{e}"))
+    except Exception as ex:  # noqa: BLE001
+        return "err " + exc_name(ex)
+
+
+def tr_to_float_repr(reply: str) -> str:
+    """the final `float(f"{mantissa}E{exp}")` of _unpack_decimal128 applied to what the translated integer part returns
+    (`ok <sign> <signed mantissa> <exp>`)."""
+    if not reply.startswith("ok "):
+        return reply
+    s, m, e = reply[3:].split()
+    if (s == "1") != (int(m) < 0) and int(m) != 0:
+        return "bad-sign " + reply
+    try:
+        return "ok " + repr(float(f"{int(m)}E{int(e)}"))
     except Exception as ex:  # noqa: BLE001
         return "err " + exc_name(ex)
 
@@ -229,8 +266,9 @@ def check_decimal128(ctx: Ctx):
                           f"_unpack_decimal128(_pack_decimal128({v!r})) = {ob[3:] if back is not None else ob}", inp)
         if len(b) != 16:
             ctx.violation("decimal128-payload-length", f"_pack_decimal128({v!r}) has {len(b)} bytes", inp)
-    ctx.correspond("_pack_decimal128 vs pack(decimal triple of str(value))", req_p, out_p)
-    correspond_map(ctx, "_unpack_decimal128(_pack_decimal128(v)) vs float(unpack(...))", req_u, out_u, dec_to_float_repr)
+    ctx.correspond("_pack_decimal128 vs pack(decimal triple of str(value))", req_p, out_p, translated=True)
+    correspond_map(ctx, "_unpack_decimal128(_pack_decimal128(v)) vs float(unpack(...))", req_u, out_u, dec_to_float_repr,
+                   tr_fmap=tr_to_float_repr)
 
     # payloads from the format description (reference encoder): boundaries of the whole format + seeded
     rng = ctx.rng
@@ -253,7 +291,7 @@ def check_decimal128(ctx: Ctx):
         req_p.append(f"d128 pack {s} {c} {e}")
         out_p.append("ok " + enc_bytes(b))        # the Lean packer against the independent reference encoder
     correspond_map(ctx, "_unpack_decimal128 on reference-encoded payloads (113-bit coefficients, format boundaries)",
-                   req_u, out_u, dec_to_float_repr)
+                   req_u, out_u, dec_to_float_repr, tr_fmap=tr_to_float_repr)
     ctx.correspond("Lean pack vs reference decimal128 encoder (model sanity, no repo code)", req_p, out_p)
     # short buffers
     req, out = [], []
@@ -264,7 +302,8 @@ def check_decimal128(ctx: Ctx):
             out.append("ok " + repr(C._unpack_decimal128(bytearray(b[:k]))))
         except Exception as ex:  # noqa: BLE001
             out.append("err " + exc_name(ex))
-    correspond_map(ctx, "_unpack_decimal128 on every prefix of a payload", req, out, dec_to_float_repr, exhaustive=True)
+    correspond_map(ctx, "_unpack_decimal128 on every prefix of a payload", req, out, dec_to_float_repr, exhaustive=True,
+                   tr_fmap=tr_to_float_repr)
 
 
 # ----------------------------------------------------------------------------------------------
@@ -1021,6 +1060,7 @@ def run(ctx: Ctx):
     seen, orig = limited_violations(ctx)
     try:
         check_decimal128(ctx)
+        common.python_operator_stream(ctx)
         check_rows(ctx)
         check_documents(ctx)
         check_pipeline(ctx)
